@@ -655,8 +655,12 @@ func (t *fnTrans) guardField(owner, fname string, ownerT types.Type, base string
 		return
 	}
 	fa := sa.fields[fname]
+	newField := false
 	if fa == nil {
-		return
+		if fa = t.g.defaultFieldAnn(sa, fname); fa == nil {
+			return
+		}
+		newField = true
 	}
 	if baseVal != nil && t.local[baseVal] {
 		return
@@ -689,10 +693,18 @@ func (t *fnTrans) guardField(owner, fname string, ownerT types.Type, base string
 				goal = or(goal, t.heldOfType(lk))
 			}
 		}
-		t.oblige("guard."+acc, disc, pos, goal, "access to a field guarded by "+fa.lock+" without holding it")
+		note := "access to a field guarded by " + fa.lock + " without holding it"
+		if newField {
+			note = "field " + sa.name + "." + fname + " was added after the contracts were written and takes the discipline of its struct (guarded by " + fa.lock + "): accessed without that lock"
+		}
+		t.oblige("guard."+acc, disc, pos, goal, note)
 	case "immutable":
 		if write {
-			t.oblige("guard.immutable", disc, pos, "false", "write to a field declared immutable after construction")
+			note := "write to a field declared immutable after construction"
+			if newField {
+				note = "field " + sa.name + "." + fname + " was added after the contracts were written; its struct has no lock, so it may only be written while the object is under construction"
+			}
+			t.oblige("guard.immutable", disc, pos, "false", note)
 		}
 	case "atomic":
 		t.oblige("guard.atomic", disc, pos, "false", "plain access to a field declared atomic")
